@@ -105,7 +105,7 @@ impl ToTokens for Expansion {
                  }| {
                     let ident = variant_ident;
                     if let Some(d) = discriminant {
-                        let base = format_ident!("__DISCRIMINANT_BASE_{}", bases.len());
+                        let base = format_ident!("__BASE_DISCRIMINANT_{}", bases.len());
                         let expr = replace_self(d.1.to_token_stream(), &self.ident);
                         bases.push(quote! { const #base: #repr_ty = #expr; });
                         last_discriminant = base.to_token_stream();
